@@ -3,7 +3,6 @@
 applies the notes below."""
 import json, glob, os
 NOTES = {
- "C17-C": "left as it is: the trigger is SecureTrie.Copy(), which the statement's operation list (update / delete / commit / reopen) does not contain and which nothing in the node calls (grep: only tests)",
  "C03-C": "a thread interleaving of two InsertConfirms (the same change as C19-A in another function): C19's subject; C03 explores delivery orders of whole requests",
 }
 for p in sorted(glob.glob('/verif/seeded/*/meta.json')):
